@@ -645,35 +645,34 @@ def reverse_diff_side(ctx, cr):
     """Negating a failed query-vs-query comparison recomputes the difference list and the clause PASSes iff that list is empty, so it
     must be taken over the side the producer took the difference over: `in` always collects left-hand values that are not contained
     (In operation: diff.push(eachl)), `==` collects from the left when lhs.len() > rhs.len() and from the right otherwise.  Decided as
-    a table over (operator, rhs.len() >= lhs.len()) -> the QueryIn field handed to reverse_diff."""
+    a table over (operator, rhs.len() >= lhs.len()) -> the QueryIn field handed to reverse_diff.  The whole of
+    `(CmpOperator, bool)::compare` is interpreted with its per-result closure probed on a symbolic element (engine model of `map`), so the
+    rule does not depend on what the closure captures or where the length comparison is written."""
     rule = "R-C03-flip-tables"
-    k = "<(rules::values::CmpOperator,bool) as rules::eval::operators::Comparator>::compare::{closure#0}"
+    k = "<(rules::values::CmpOperator,bool) as rules::eval::operators::Comparator>::compare"
     f = cr.fns.get(k)
     CO = "rules::values::CmpOperator"
     QI = "rules::eval::operators::QueryIn"
-    if not f or QI not in cr.adts or "rules::eval::operators::reverse_diff" not in cr.fns:
-        ctx.lost(rule, rule + ":reverse-diff-side", "negation wrapper closure / QueryIn / reverse_diff")
+    ER = "rules::eval::operators::EvalResult"
+    if not f or QI not in cr.adts or ER not in cr.adts or "rules::eval::operators::reverse_diff" not in cr.fns:
+        ctx.lost(rule, rule + ":reverse-diff-side", "negation wrapper / QueryIn / EvalResult / reverse_diff")
         return
     ops = [v["name"] for v in cr.adts[CO]["variants"]]
     qf = [x["name"] for x in cr.adts[QI]["variants"][0]["fields"]]
-    upn = {n: pl for n, pl in f["names"] if not isinstance(pl, int)}
-    order = {}
-    for n in ("rhs", "lhs", "self"):
-        pl = upn.get(n)
-        if pl is None and n == "self":
-            continue       # the closure does not look at the operator at all: the table below shows the consequence
-        if pl is None:
-            ctx.lost(rule, rule + ":reverse-diff-side", "captured variable %s of the negation closure" % n)
-            return
-        order[[pr for pr in M.place_projs(pl) if isinstance(pr, list) and pr[0] == "f"][0][1]] = n
+    ern = [v["name"] for v in cr.adts[ER]["variants"]]
     for op in ("Eq", "In"):
         got = set()
 
         class H(ai.Hooks):
+            def inline(self, a, st, key, fn):
+                return key.startswith(k + "::{closure")
+
             def constrained(self, a, st, sid, val):
                 m = re.match(r"\(LEN\((\w+)\*?\) (\w+) LEN\((\w+)\*?\)\)(!?)$", sid)
                 if m and val[0] == "bool":
                     l, o, r, neg = m.groups()
+                    nm = {"arg2": "LHS", "arg3": "RHS"}
+                    l, r = nm.get(l, l), nm.get(r, r)
                     truth = val[1] != (neg == "!")
                     rel = {("RHS", "Ge", "LHS"): truth, ("LHS", "Le", "RHS"): truth, ("LHS", "Gt", "RHS"): not truth, ("RHS", "Lt", "LHS"): not truth}.get((l, o, r), "unrecognised:" + sid)
                     st.mon = (st.mon or Mon()).set(ge=rel)
@@ -687,13 +686,14 @@ def reverse_diff_side(ctx, cr):
                         side = qf[fl[-1][1]] if fl else None
                     got.add(((st.mon or Mon()).get("ge"), side))
                     return [(("sym", "RD"), st.mon)]
+                if M.norm_path(callee.get("decl", "")).endswith("operators::Comparator::compare") and st.top is st.frames[0]:
+                    # the un-negated comparison: some results
+                    return [(("enum", ai.RESULT, 0, (("enum", ER, ern.index("Result"), (("sym", "RESULTS"),)),)), st.mon)]
                 return None
         a = ai.AI(cr, H())
-        up = {"rhs": ("ref", ("X", "RHSREF"), ()), "lhs": ("ref", ("X", "LHSREF"), ()), "self": ("ref", ("X", "SELFREF"), ())}
-        env = ("closure", k, tuple(up[order[i]] for i in sorted(order)))
-        ext = {"SELF": ("tuple", (("enum", CO, ops.index(op), ()), ("bool", True))), "SELFREF": ("ref", ("X", "SELF"), ()), "RHSREF": ("sym", "RHS"), "LHSREF": ("sym", "LHS"), "ENV": env}
+        ext = {"SELF": ("tuple", (("enum", CO, ops.index(op), ()), ("bool", True)))}
         try:
-            a.run(k, args=[("ref", ("X", "ENV"), ()), None], mon=Mon(), ext=ext)
+            a.run(k, args=[("ref", ("X", "SELF"), ()), None, None], mon=Mon(), ext=ext)
         except ai.Undecided as e:
             ctx.ob(rule, "%s:reverse-diff-side:%s" % (rule, op), False, "undecided %s" % e, fn=f)
             continue
